@@ -177,8 +177,8 @@ def render(e, minprec=0):
     elif op == "bin":
         p = PREC[e["o"]]
         left = render(e["a"], p)
-        if left == "/" and e["o"] in ("and", "or", "div", "mod", "*"):
-            left = "(/)"        # after '/', a name or '*' is a node test (XPath 3.7), not an operator
+        if (left == "/" or left.endswith(" /")) and e["o"] in ("and", "or", "div", "mod", "*"):
+            left = "(" + left + ")"        # after '/', a name or '*' is a node test (XPath 3.7), not an operator (also after 'a | /')
         s = left + " " + e["o"] + " " + render(e["b"], p + 1)
     elif op == "filter":
         inner = render(e["e"], P_PRIMARY)
